@@ -100,6 +100,7 @@ void vc_output(const char *name, gbuf *g);  /* canaries intact */
 void vc_input_raw(const char *name, const void *p, size_t n); /* plain memory that must stay unchanged */
 uint64_t vcall(void *fn, int nargs, const uint64_t *args, obs *o);
 extern __thread struct vregs vc_regs;       /* register file after the last call */
+extern int vc_step;
 extern int vc_hidden_seed;                  /* seed of all hidden inputs (C20) */
 extern int vc_dump_secrets;                 /* when set, ev_obs also dumps vector regs + dirty dead stack */
 void vc_thread_init(void);
